@@ -109,6 +109,38 @@ Proof.
   split; [exact H1 | split; [exact H2 | apply group_rows_partition]].
 Qed.
 
+(* what each aggregate computes inside a group, against a declarative reading: [vals] are the
+   argument's values on the group's rows; nulls are dropped; DISTINCT keeps each value once;
+   count = how many, sum = the integer sum, min / max = an element below / above every element
+   under orderability (null for an empty input), collect = the list itself.  Stated for every
+   configuration in which sum(DISTINCT) and collect(DISTINCT) are not deviated (the reference). *)
+Theorem C01_aggregate_values : forall cf g pe a d e rows vals v,
+  cf_sum_distinct cf = true -> cf_collect_distinct_entities cf = true ->
+  omap (fun r => eval_expr cf g pe r e) rows = Ok vals ->
+  eval_agg cf g pe a d (Some e) rows = Ok v ->
+  let nn := filter (fun x => negb (value_eqb x VNull)) vals in
+  exists xs,
+    (if d then NoDup xs /\ (forall x, In x xs <-> In x nn) else xs = nn) /\
+    match a with
+    | GCount => v = VInt (Z.of_nat (length xs))
+    | GSum => exists zs, xs = map VInt zs /\ v = VInt (fold_right Z.add 0%Z zs)
+    | GMin => (xs = [] /\ v = VNull) \/ (In v xs /\ Forall (fun x => ord_cmp v x <> Gt) xs)
+    | GMax => (xs = [] /\ v = VNull) \/ (In v xs /\ Forall (fun x => ord_cmp v x <> Lt) xs)
+    | GCollect => v = VList xs
+    end.
+Proof. exact agg_value_spec. Qed.
+
+Theorem C01_count_star : forall cf g pe a d rows,
+  eval_agg cf g pe a d None rows = Ok (VInt (Z.of_nat (length rows))).
+Proof. exact count_star_spec. Qed.
+
+(* orderability (ORDER BY, min, max) is a total preorder *)
+Theorem C01_orderability_preorder : forall a b c,
+  ord_cmp a a = Eq
+  /\ ord_cmp b a = CompOpp (ord_cmp a b)
+  /\ (ord_cmp a b <> Gt -> ord_cmp b c <> Gt -> ord_cmp a c <> Gt).
+Proof. intros a b c. split; [apply ord_cmp_refl | split; [apply ord_cmp_opp | apply vle_trans]]. Qed.
+
 (* OPTIONAL MATCH = MATCH when something matches, else the incoming row with the new
    variables null *)
 Theorem C01_optional_match : forall cf g pe pats w r vps kept,
@@ -280,7 +312,13 @@ Example C01_known_witnesses :
                      CUnwind (ELit (VList [VInt 1; VInt 2])) 2;
                      CWith (PJ false [(IExpr (EVar 2), 3)] [] None None) None]
                     (ret1 (IExpr (EVar 3)))] false in
-      eval_query fixed_graph q = Ok [[VInt 1]; [VInt 2]; [VInt 1]; [VInt 2]] /\ Known_syntactic q = true).
+      eval_query fixed_graph q = Ok [[VInt 1]; [VInt 2]; [VInt 1]; [VInt 2]] /\ Known_syntactic q = true)
+  (* wheres_then_unwind: MATCH (n:A) WHERE n.p0 = 1 MATCH (m:B) WHERE m.p0 = 2 UNWIND [4] AS x RETURN id(n) *)
+  /\ (let q := Q [SQ [CMatch false [(NP (Some 1) [0] [], [])] (Some (ECmp OEq (EProp 1 0) (ELit (VInt 1))));
+                     CMatch false [(NP (Some 2) [1] [], [])] (Some (ECmp OEq (EProp 2 0) (ELit (VInt 2))));
+                     CUnwind (ELit (VList [VInt 4])) 3]
+                    (ret1 (IExpr (EFn FId [EVar 1])))] false in
+      eval_query fixed_graph q = Ok [[VInt 1]] /\ Known_syntactic q = true).
 Proof. vm_compute. repeat split. Qed.
 
 Print Assumptions C01_match_sound_complete.
@@ -297,6 +335,9 @@ Print Assumptions C01_skip_limit.
 Print Assumptions C01_distinct.
 Print Assumptions C01_union.
 Print Assumptions C01_aggregate_groups.
+Print Assumptions C01_aggregate_values.
+Print Assumptions C01_count_star.
+Print Assumptions C01_orderability_preorder.
 Print Assumptions C01_optional_match.
 Print Assumptions C01_optional_null_padding.
 Print Assumptions RW_topn.
